@@ -158,15 +158,18 @@ theorem groupedCounterAdd_owned_other (st : State) (g g' n : Nat) (v : Int) (l :
     rw [gUpsert_owned_other _ _ _ _ _ _ _ hg (by simpa [hf.2.2] using hno), hf.2.2]
 
 theorem applyGroupOp_owned_other (common : Labels) (g g' : Nat) (st : State) (op : Op) (hg : g ≠ g')
-    (hno : ∀ e ∈ owned st.gentries g', (e.name, e.key) ≠ opIdent common op) :
+    (hno : op.action ≠ "expire" → ∀ e ∈ owned st.gentries g', (e.name, e.key) ≠ opIdent common op) :
     owned (applyGroupOp common g st op).gentries g' = owned st.gentries g' := by
-  have hno' : ∀ e ∈ owned st.gentries g', ¬ (e.name = op.name ∧ e.key = gkey (mergeLabels op.labels common)) := by
-    intro e he ⟨h1, h2⟩
-    exact hno e he (by simp [opIdent, h1, h2])
   unfold applyGroupOp
-  split
-  · exact expire_owned_other st g g' hg
-  · split
+  by_cases hx : (op.action == "expire") = true
+  · simp only [hx, if_true]
+    exact expire_owned_other st g g' hg
+  · have hx' : op.action ≠ "expire" := by simpa using hx
+    have hno' : ∀ e ∈ owned st.gentries g', ¬ (e.name = op.name ∧ e.key = gkey (mergeLabels op.labels common)) := by
+      intro e he ⟨h1, h2⟩
+      exact hno hx' e he (by simp [opIdent, h1, h2])
+    simp only [hx, Bool.false_eq_true, if_false]
+    split
     · exact groupedCounterAdd_owned_other _ _ _ _ _ _ hg hno'
     · exact groupedCounterAdd_owned_other _ _ _ _ _ _ hg hno'
     · exact groupedGaugeSet_owned_other _ _ _ _ _ _ hg hno'
@@ -175,7 +178,7 @@ theorem applyGroupOp_owned_other (common : Labels) (g g' : Nat) (st : State) (op
 
 theorem applyGroupOperations_owned_other (common : Labels) (st : State) (g g' : Nat) (ops : List Op)
     (hg : g ≠ g')
-    (hno : ∀ op ∈ ops, ∀ e ∈ owned st.gentries g', (e.name, e.key) ≠ opIdent common op) :
+    (hno : ∀ op ∈ ops, op.action ≠ "expire" → ∀ e ∈ owned st.gentries g', (e.name, e.key) ≠ opIdent common op) :
     owned (applyGroupOperations common st g ops).gentries g' = owned st.gentries g' := by
   unfold applyGroupOperations
   rw [← expire_owned_other st g g' hg] at hno ⊢
@@ -186,9 +189,9 @@ theorem applyGroupOperations_owned_other (common : Labels) (st : State) (g g' : 
     simp only [List.foldl_cons]
     have h1 := applyGroupOp_owned_other common g g' s op hg (hno op (by simp))
     rw [ih (applyGroupOp common g s op) (by
-      intro op' hop' e he
+      intro op' hop' hx e he
       rw [h1] at he
-      exact hno op' (by simp [hop']) e he), h1]
+      exact hno op' (by simp [hop']) hx e he), h1]
 
 end ShellOp.Metrics
 
